@@ -210,6 +210,8 @@ def run(ctx):
     if not only:
         found = c09_handover.part_handover(ctx, cfgs) or found
         ctx.log(f"hand-over family at {_t.time() - ctx.t0:.0f}s")
+        found = c09_handover.part_getters(ctx, cfgs) or found
+        ctx.log(f"getter family at {_t.time() - ctx.t0:.0f}s")
     # verdicts for proof / placement breaks: Search = the correspondence above
     if pending is not None and not found:
         ctx.violation(pending["kind"], pending["name"], pending["detail"])
